@@ -81,4 +81,6 @@ struct C06 : Harness {
     }
     bool mid_pending = false;
 };
+#ifndef SKV_NO_MAIN
 int main(int argc, char **argv) { C06 h; return skv_main(argc, argv, h); }
+#endif
